@@ -113,6 +113,11 @@ THEOREMS = {
             "JP.C15.parse_print_escape", "JP.C15.parseValueOf_print_escape", "JP.C15.print_escape_utf8",
         ],
     },
+    "C16": {
+        "JP.Props.C16": [
+            "JP.C16.scanner_iff", "JP.C16.compact_accepts", "JP.C16.indent_accepts", "JP.C16.valid_ws",
+        ],
+    },
     "C17": {
         "JP.Props.C17": [
             "JP.C17.encodeRune_decodeRune", "JP.C17.decodeRune_reencode", "JP.C17.unquote_quoteBody", "JP.C17.quoteBody_valid",
